@@ -108,6 +108,18 @@ def coverage(chk, k, rule='C19-R2', array='out', accs=None, what='stores to out'
                             undecided = f'index {idx} not unit-stride in its loop variable'
                             break
                         a, b = st.loopvars[lv[0]]
+                        # a guard on the path may cut the loop range to a prefix / suffix: use the tightest entailed bounds
+                        v_ = Lin.sym(lv[0])
+                        for l in list(st.facts.ge):
+                            co = l.t.get(lv[0], 0)
+                            if co == -1:
+                                u = l + v_                      # v <= u
+                                if lv[0] not in u.syms() and prove.entails_ge(st, (b - 1) - u) and not prove.entails_ge(st, u - (b - 1)):
+                                    b = u + 1
+                            elif co == 1:
+                                w = v_ - l                      # v >= w
+                                if lv[0] not in w.syms() and prove.entails_ge(st, w - a) and not prove.entails_ge(st, a - w):
+                                    a = w
                         lo = idx.subst(lv[0], a)
                         hi = idx.subst(lv[0], b - 1) + 1
                     else:
@@ -213,8 +225,9 @@ def accumulator(chk, fn):
         ladds = [a for a in adds if any(a is x for x in ast.walk(lp))]
         lstores = [s for s in stores if any(s is x for x in ast.walk(lp))]
         if len(ladds) == 1 and len(lstores) == 1 and lv and unparse(ladds[0].value.slice) == lv:
-            order = [x for x in lp.body if x is ladds[0] or x is lstores[0]]
-            ok_loop = len(order) == 2 and order[0] is ladds[0]
+            # the add must be an unconditional statement of the loop body; the store follows it (possibly under a guard)
+            seq = [x for x in walk_no_nested(lp) if x is ladds[0] or x is lstores[0]]
+            ok_loop = len(seq) == 2 and seq[0] is ladds[0] and any(x is ladds[0] for x in lp.body)
             detail = f'loop adds arr[{lv}] then stores'
         else:
             detail = f'loop adds={[unparse(a) for a in ladds]} stores={[unparse(s) for s in lstores]}'
